@@ -9,19 +9,26 @@ Which branch `Prob.gkls` takes (`gklsFindBall`), and the closed form of every br
 namespace Gkls
 open Prob
 
+/-- the constants of `GKLSFunction` with the PRECISION constant replaced by `p`
+(`p = 10⁻¹⁰`: the code; `p = 0`: the ideal function without guard) -/
+noncomputable def constsP (p : ℝ) : GklsConsts ℝ :=
+  { maxValue := 1e100, precision := p, domainLeft := -1, domainRight := 1, three := 3, four := 4 }
+
+theorem constsP_code : constsP 1e-10 = consts := rfl
+
+/-- `x` passes the domain check with precision `p` (box `[-1,1]^n` with slack `p`) -/
+def InDomainP (p : ℝ) (x : List ℝ) : Prop := ∀ c ∈ x, (-1 : ℝ) - p ≤ c ∧ c ≤ 1 + p
 /-- `x` passes the domain check of `CalculateDFunction` (box `[-1,1]^n` with slack `10⁻¹⁰`) -/
-def InDomain (x : List ℝ) : Prop := ∀ c ∈ x, (-1 : ℝ) - 1e-10 ≤ c ∧ c ≤ 1 + 1e-10
+def InDomain (x : List ℝ) : Prop := InDomainP 1e-10 x
 /-- `x` lies in the box `[-1,1]^n` -/
 def InBox (x : List ℝ) : Prop := ∀ c ∈ x, (-1 : ℝ) ≤ c ∧ c ≤ 1
 
-theorem InBox.inDomain {x : List ℝ} (h : InBox x) : InDomain x := by
+theorem InBox.inDomainP {x : List ℝ} (h : InBox x) {p : ℝ} (hp : 0 ≤ p) : InDomainP p x := by
   intro c hc
   obtain ⟨h1, h2⟩ := h c hc
-  constructor
-  · have : (0 : ℝ) ≤ 1e-10 := by norm_num
-    linarith
-  · have : (0 : ℝ) ≤ 1e-10 := by norm_num
-    linarith
+  constructor <;> linarith
+
+theorem InBox.inDomain {x : List ℝ} (h : InBox x) : InDomain x := h.inDomainP (by norm_num)
 
 /-- the list of balls scanned by the `while` loop: `(M_i, ρ_i, f_i)`, `i = 1..9` -/
 def balls (D : GklsData ℝ) : List (List ℝ × ℝ × ℝ) := (List.zip D.localMin (List.zip D.rho D.f)).drop 1
@@ -140,14 +147,14 @@ end good
 
 /-! ### The branches of `Prob.gkls` -/
 
-theorem domain_check_false (x : List ℝ) (hx : InDomain x) :
-    (x.any fun xi => decide (xi < consts.domainLeft - consts.precision ∨
-      consts.domainRight + consts.precision < xi)) = false := by
+theorem domain_check_false (p : ℝ) (x : List ℝ) (hx : InDomainP p x) :
+    (x.any fun xi => decide (xi < (constsP p).domainLeft - (constsP p).precision ∨
+      (constsP p).domainRight + (constsP p).precision < xi)) = false := by
   rw [List.any_eq_false]
   intro c hc
   obtain ⟨h1, h2⟩ := hx c hc
   rw [decide_eq_true_eq]
-  simp only [consts]
+  simp only [constsP]
   intro h
   rcases h with h | h
   · linarith
@@ -158,27 +165,38 @@ theorem headD_localMin (D : GklsData ℝ) : D.localMin.headD [] = Mi D 0 := by
 theorem headD_f (D : GklsData ℝ) : D.f.headD 0 = fi D 0 := by
   unfold fi; cases D.f <;> rfl
 
-/-- the paraboloid branch -/
-theorem gkls_of_none (D : GklsData ℝ) (x : List ℝ) (hx : InDomain x)
-    (h : gklsFindBall x (balls D) = none) : gkls consts D x = dist x (Mi D 0) ^ 2 + fi D 0 := by
+/-- the paraboloid branch (any precision) -/
+theorem gkls_of_noneP (p : ℝ) (D : GklsData ℝ) (x : List ℝ) (hx : InDomainP p x)
+    (h : gklsFindBall x (balls D) = none) : gkls (constsP p) D x = dist x (Mi D 0) ^ 2 + fi D 0 := by
   unfold gkls
-  rw [if_neg (by rw [domain_check_false x hx]; simp)]
+  rw [if_neg (by rw [domain_check_false p x hx]; simp)]
   simp only []
   rw [show (List.zip D.localMin (List.zip D.rho D.f)).drop 1 = balls D from rfl, h]
   simp only [gklsNorm_eq, headD_localMin, headD_f]
   rw [dist_comm, sq]
 
-/-- the ball branch: guard value or cubic -/
-theorem gkls_of_some (D : GklsData ℝ) (x : List ℝ) (hx : InDomain x) (i : Nat)
+/-- the ball branch (any precision): guard value or cubic -/
+theorem gkls_of_someP (p : ℝ) (D : GklsData ℝ) (x : List ℝ) (hx : InDomainP p x) (i : Nat)
     (h : gklsFindBall x (balls D) = some (Mi D i, rhoi D i, fi D i)) :
-    gkls consts D x = if dist x (Mi D i) < 1e-10 then fi D i else cubicVal D i x := by
+    gkls (constsP p) D x = if dist x (Mi D i) < p then fi D i else cubicVal D i x := by
   unfold gkls
-  rw [if_neg (by rw [domain_check_false x hx]; simp)]
+  rw [if_neg (by rw [domain_check_false p x hx]; simp)]
   simp only []
   rw [show (List.zip D.localMin (List.zip D.rho D.f)).drop 1 = balls D from rfl, h]
   simp only [gklsNorm_eq, headD_localMin, headD_f, scal_eq]
   unfold cubicVal cubA
   rw [dist_comm (Mi D i) x, dist_mul_self]
   rfl
+
+/-- the paraboloid branch -/
+theorem gkls_of_none (D : GklsData ℝ) (x : List ℝ) (hx : InDomain x)
+    (h : gklsFindBall x (balls D) = none) : gkls consts D x = dist x (Mi D 0) ^ 2 + fi D 0 :=
+  gkls_of_noneP 1e-10 D x hx h
+
+/-- the ball branch: guard value or cubic -/
+theorem gkls_of_some (D : GklsData ℝ) (x : List ℝ) (hx : InDomain x) (i : Nat)
+    (h : gklsFindBall x (balls D) = some (Mi D i, rhoi D i, fi D i)) :
+    gkls consts D x = if dist x (Mi D i) < 1e-10 then fi D i else cubicVal D i x :=
+  gkls_of_someP 1e-10 D x hx i h
 
 end Gkls
